@@ -70,6 +70,13 @@ class Oracle:
             if n and (s_off + n > len(src) * 8 or d_off + n > len(dst) * 8):
                 return None
             return "ok " + hx(self.put(dst, d_off, n, (le(src) >> s_off) & ((1 << n) - 1)))
+        if op == "copyself":
+            buf, d_off, n, s_off = unhx(t[1]), int(t[2]), int(t[3]), int(t[4])
+            if d_off % 8 or s_off % 8 or n % 8 or d_off <= s_off or d_off + n > len(buf) * 8:
+                return None         # documented: overlap is defined for byte-aligned offsets only (whole bytes here)
+            out = bytearray(buf)
+            out[d_off // 8: d_off // 8 + n // 8] = buf[s_off // 8: s_off // 8 + n // 8]
+            return "ok " + hx(bytes(out))
         if op == "sat":
             size, off, n = int(t[1]), int(t[2]), int(t[3])
             return "ok %d" % min(n, max(0, size * 8 - off))
@@ -488,6 +495,13 @@ def c_cases(ctx):
                 src = patterns(rng, ns, 2 if k != 1 else 0)
                 dst = patterns(rng, nd, k)
                 out.append((f"copy {hx(dst)} {d_off} {n} {hx(src)} {s_off}", "exh"))
+    # wave 7: byte-aligned copy between OVERLAPPING regions of one buffer, destination above source (memmove semantics)
+    for size in (2, 3, 8, 17, 40, 100):
+        for sb in range(0, min(size, 4)):
+            for gap in (1, 2, 3, 9, 33):
+                for nb in (1, 2, gap, gap + 1, 2 * gap + 1, size):
+                    if sb + gap + nb <= size:
+                        out.append((f"copyself {hx(patterns(rng, size, 2))} {8 * (sb + gap)} {8 * nb} {8 * sb}", "exh"))
     # round 2: nunavutChooseMin, SetF32/64 / GetF32/64 as bit-pattern moves
     for a in (0, 1, 7, 8, 255, 2 ** 32, 2 ** 63):
         for b in (0, 1, 8, 9, 2 ** 32 - 1, 2 ** 64 - 1):
@@ -674,6 +688,8 @@ def nontrivial(line: str) -> bool:
             return True
         if op.startswith(("p.", "pv.")):
             return t[1] != "-" and t[-1] not in ("0", "-")
+        if op == "copyself":
+            return True
         if op in ("copy",):
             return int(t[3]) > 0 and (int(t[2]) % 8 != 0 or int(t[5]) % 8 != 0 or int(t[3]) % 8 != 0)
         if op == "sat":
@@ -869,7 +885,7 @@ def build_cpp(ctx):
             exe = ctx.scratch / f"c14_cpp_{std.replace('+', 'p')}_{cc.replace('+', 'p')}"
             cmd = [cc, f"-std={std}", "-O1", "-g", "-Wall", "-Wextra"] + SAN + ["-I", str(out), str(HERE / "cpp" / "c14_main.cpp"), "-o", str(exe)]
             jobs.append((f"cpp-{std}-{cc}", exe, cmd, None))
-    if not ctx.quick:
+    if True:    # (quick tier too: the library's own assertions are part of what a read at / past the end must not trip)
         out2 = ctx.scratch / "cpp_asserts"
         nnvg(ctx, "cpp", out2, ["--enable-serialization-asserts"])
         exe = ctx.scratch / "c14_cpp_asserts"
@@ -894,13 +910,32 @@ def run_cpp(ctx, drv):
         ctx.count("cpp:" + op_of(l))
     model = drv.ask(lines, timeout=1500) if drv else [None] * len(lines)
     progs = compile_all(ctx, build_cpp(ctx))
+    def subset_for(p):
+        """quick tier: the asserts-on build answers the zero-extension cases (offset at / beyond the end of the data, where a
+        read saturates to zero bits) and every 9th other request; thorough: everything"""
+        if not (ctx.quick and "asserts" in p.name):
+            return list(range(len(lines)))
+        keep = []
+        for i, l in enumerate(lines):
+            t = l.split(" ")
+            past_end = False
+            if t[0].startswith(("x.getu", "x.geti", "x.getbit", "x.getbits", "x.getf", "x.sub1", "x.subbytes", "x.copy")) and len(t) > 2:
+                k = 4 if t[0] == "x.copy" else 2
+                d = t[3] if t[0] == "x.copy" else t[1]
+                past_end = int(t[k]) >= 8 * (0 if d == "-" else len(d) // 2)
+            if past_end or i % 9 == 0:
+                keep.append(i)
+        return keep
+
     with concurrent.futures.ThreadPoolExecutor(max_workers=6) as ex:
-        futs = [(p, ex.submit(p.ask, lines)) for p in progs]
+        subsets = {p.name: subset_for(p) for p in progs}
+        futs = [(p, ex.submit(p.ask, [lines[i] for i in subsets[p.name]])) for p in progs]
         for p, f in futs:
             impl = f.result()
-            n = compare(ctx, p.name, lines, streams, model, oracle_ans, impl)
-            ctx.count(f"target:{p.name}", len(lines))
-            ctx.extra.setdefault("targets", {})[p.name] = {"requests": len(lines), "contract_failures": n}
+            idx = subsets[p.name]
+            n = compare(ctx, p.name, [lines[i] for i in idx], [streams[i] for i in idx], [model[i] for i in idx], [oracle_ans[i] for i in idx], impl)
+            ctx.count(f"target:{p.name}", len(idx))
+            ctx.extra.setdefault("targets", {})[p.name] = {"requests": len(idx), "contract_failures": n}
     ctx.sample({"request": lines[len(lines) // 2], "answer": oracle_ans[len(lines) // 2]})
 
 
@@ -1323,6 +1358,8 @@ class PyImpl:
         """What an application may do with a result it was handed: modify it in place.  The sources given to the
         deserializer are immutable `bytes`, so a result is either a read-only view of the source (the write raises) or a
         fresh array; in neither case may a later call observe the write."""
+        if getattr(self, "pres", "bytes") != "bytes":
+            return      # a writable source (bytearray, array) is documented to be referenced directly: writing a result writes it
         try:
             a[...] = True if a.dtype == bool else (0xA5 if a.dtype.itemsize == 1 else 0xA5A5)
             self.scribbled = getattr(self, "scribbled", 0) + 1
@@ -1334,8 +1371,28 @@ class PyImpl:
         s._bit_offset = off
         return s
 
+    PRESENTATIONS = ["bytes", "bytearray", "mv-b", "mv-B", "mv-H", "np-int8", "np-uint8", "np-uint16", "array-B", "array-b", "array-H", "two-fragments"]
+
+    def frags(self, buf):
+        """the same bytes as the caller may present them (self.pres): the result must not depend on the presentation"""
+        import array
+        np, pres, raw = self.np, getattr(self, "pres", "bytes"), bytes(buf)
+        even = len(raw) % 2 == 0
+        if pres == "bytearray": return [memoryview(bytearray(raw))]
+        if pres == "mv-b": return [memoryview(raw).cast("b")]
+        if pres == "mv-B": return [memoryview(raw).cast("B")]
+        if pres == "mv-H" and even: return [memoryview(raw).cast("H")]
+        if pres == "np-int8": return [memoryview(np.frombuffer(raw, dtype=np.int8))]
+        if pres == "np-uint8": return [memoryview(np.frombuffer(raw, dtype=np.uint8))]
+        if pres == "np-uint16" and even: return [memoryview(np.frombuffer(raw, dtype=np.uint16))]
+        if pres == "array-B": return [memoryview(array.array("B", raw))]
+        if pres == "array-b": return [memoryview(array.array("b", [x - 256 if x > 127 else x for x in raw]))]
+        if pres == "array-H" and even: return [memoryview(array.array("H", raw))] if False else [memoryview(np.frombuffer(raw, dtype=np.uint16).copy())]
+        if pres == "two-fragments": return [memoryview(raw[: len(raw) // 2]).cast("b"), memoryview(raw[len(raw) // 2:])]
+        return [memoryview(raw)]
+
     def de(self, buf, off):
-        d = self.ns.Deserializer.new([memoryview(bytes(buf))])
+        d = self.ns.Deserializer.new(self.frags(buf))
         d._bit_offset = off
         return d
 
@@ -1382,9 +1439,9 @@ class PyImpl:
             z = ns.ZeroExtendingBuffer([memoryview(unhx(f)) for f in ([] if t[1] == "!" else t[1].split(","))])
             return f"ok {hx(bytes(z._buf))} {z.bit_length}"
         if op == "p.bytez":
-            return "ok %d" % ns.ZeroExtendingBuffer([memoryview(unhx(t[1]))]).get_byte(int(t[2]))
+            return "ok %d" % ns.ZeroExtendingBuffer(self.frags(unhx(t[1]))).get_byte(int(t[2]))
         if op == "p.slicez":
-            return "ok " + hx(bytes(ns.ZeroExtendingBuffer([memoryview(unhx(t[1]))]).get_unsigned_slice(int(t[2]), int(t[3]))))
+            return "ok " + hx(bytes(ns.ZeroExtendingBuffer(self.frags(unhx(t[1]))).get_unsigned_slice(int(t[2]), int(t[3]))))
         if op == "p.zfork":
             frs = ns.ZeroExtendingBuffer([memoryview(unhx(t[1]))]).fork_bytes(int(t[2]), int(t[3]))
             return "ok " + hx(b"".join(bytes(f) for f in frs))
@@ -1442,11 +1499,11 @@ class PyImpl:
         if op == "p.u2b":
             return "ok " + hx(bytes(ns.Serializer._unsigned_to_bytes(int(t[1]), int(t[2]))))
         if op == "p.slice":
-            res = ns.ZeroExtendingBuffer([memoryview(unhx(t[1]))]).get_unsigned_slice(int(t[2]), int(t[3]))
+            res = ns.ZeroExtendingBuffer(self.frags(unhx(t[1]))).get_unsigned_slice(int(t[2]), int(t[3]))
             r = "ok " + hx(bytes(res)); self.scribble(res)
             return r
         if op == "p.byte":
-            return "ok %d" % ns.ZeroExtendingBuffer([memoryview(unhx(t[1]))]).get_byte(int(t[2]))
+            return "ok %d" % ns.ZeroExtendingBuffer(self.frags(unhx(t[1]))).get_byte(int(t[2]))
         buf, off = unhx(t[1]), int(t[2])
         mf = re.fullmatch(r"p\.(add|f)_([au])f(16|32|64)", op)
         if mf:
@@ -1545,6 +1602,34 @@ def run_py(ctx, drv):
                                  if st in SEQ_STREAMS else
                                  {"note": "every array returned earlier in this interpreter was modified in place by the wrapper; if this "
                                           "request passes alone, see the alias-seq record"})))
+    # the same source bytes presented in every way a caller may (bytes, bytearray, memoryview casts, NumPy arrays of other item
+    # types, array.array, two fragments): every Deserializer / ZeroExtendingBuffer read must give the answer it gives for `bytes`
+    de_ops = ("p.f_", "p.byte", "p.bytez", "p.slice", "p.slicez", "p.dfork", "p.remaining", "p.fz_")
+    cand = [(l, m) for l, st, m in zip(lines, streams, model) if l.startswith(de_ops) and st not in SEQ_STREAMS and l.split(" ")[1] != "-"]
+    step = max(1, len(cand) // (2500 if ctx.quick else 40000))
+    npres = 0
+    for k, (line, m) in enumerate(cand[::step]):
+        o = canon_fetch_float(line, orc.answer(line))
+        m = canon_fetch_float(line, m)
+        for pres in PyImpl.PRESENTATIONS[1:]:
+            if (k + len(pres)) % 3 and pres not in ("mv-b", "np-int8"):     # the signed item types always, the others in rotation
+                continue
+            impl.pres = pres
+            a = canon_fetch_float(line, impl.answer(line))
+            npres += 1
+            ctx.case(("presentation", pres, line), True)
+            ctx.count("py:presentation:" + pres)
+            if m is not None:
+                ctx.traces += 1
+                if a != m:
+                    ctx.disagree("py:presentation", {"request": line, "presentation": pres}, m, a)
+            if o is not None and a != o:
+                nfail += 1
+                ctx.fail({"kind": "source-presentation", "target": "py", "op": op_of(line)},
+                         "a Deserializer / ZeroExtendingBuffer read depends on how the caller presents the source bytes (item format of the memoryview / array)",
+                         {"target": "py", "request": line, "presentation": pres, "observed": a, "expected": o, "model": m})
+    impl.pres = "bytes"
+    ctx.extra["py_source_presentations"] = {"kinds": PyImpl.PRESENTATIONS, "requests": npres}
     ctx.extra.setdefault("targets", {})["py-numpy"] = {"requests": len(lines), "within_contract": ncontract, "contract_failures": nfail}
     ctx.extra["py_results_modified_in_place"] = getattr(impl, "scribbled", 0)
     ctx.sample({"request": lines[len(lines) // 2], "answer": impl.answer(lines[len(lines) // 2])})
@@ -1755,6 +1840,7 @@ def replay(ctx, path):
     exp = Oracle().answer(line)
     if target.startswith("py"):
         impl = PyImpl(ctx)
+        impl.pres = rp.get("presentation", "bytes")
         for h in rp.get("history", []):      # state carried between calls in one interpreter
             impl.answer(h)
         got, exp = canon_fetch_float(line, impl.answer(line)), canon_fetch_float(line, exp)
